@@ -581,6 +581,8 @@ def reference(case, sigma, Wcall):
     Psel = np.zeros((P, npri))
     pi = np.zeros(npri)
     for j, it in enumerate(case.priors):
+        if not (it['dv'] > 0.0 and math.isfinite(1.0 / it['dv'] ** 2)):
+            raise Skip('prior with vanishing error (data of vanishing magnitude)')
         Pm[it['k'], it['k']] += 1.0 / it['dv'] ** 2
         Psel[it['k'], j] = 1.0 / it['dv'] ** 2
         pi[j] = it['v']
